@@ -1,4 +1,8 @@
-"""C18 - source lifecycle: one polling loop at a time, nothing new after stop, from_iterable exact."""
+"""C18 - source lifecycle: one polling loop at a time, nothing new after stop, from_iterable exact.
+
+Every history - including back-to-back start/stop calls inside one loop callback (["multi", calls] = SMulti) and
+the consumer calling stop() from inside its callback ("stop_on" = ss_stop_on) - is compared with the Coq model
+Ext/SourceLife.v (s_agree, evaluated inside Coq by vm_compute); the oracle clauses are checked on the real trace as well."""
 import itertools, json, os, random, sys
 sys.path.insert(0, os.path.dirname(os.path.abspath(__file__)))
 import common, srcfam
@@ -10,11 +14,17 @@ def coq_case(name, case, obs, fixed=True):
     kind = "(SPeriodic %s)" % z(sp["poll"]) if sp["k"] == "periodic" else "(SIterable [%s])" % "; ".join(z(i) for i in sp["items"])
     acts = []
     for a in case["actions"]:
-        acts.append({"start": "SStart", "stop": "SStop", "ack": "SAck"}.get(a[0]) or "SAdv %s" % z(a[1]))
+        if a[0] == "multi":
+            # back-to-back calls inside one loop callback
+            acts.append("SMulti [%s]" % "; ".join({"start": "CStart", "stop": "CStop"}[c] for c in a[1]))
+        else:
+            acts.append({"start": "SStart", "stop": "SStop", "ack": "SAck"}.get(a[0]) or "SAdv %s" % z(a[1]))
+    # the consumer's stop() from inside its callback (on the source or, walking upstream, on the sink node)
+    on = "(Some %s)" % z(case["stop_on"]) if "stop_on" in case else "None"
     ob = ["{| so_now := %s; so_deliv := [%s]; so_stopped := %s |}" % (
         z(o["now"]), "; ".join("(%s, %s)" % (z(t), z(v)) for t, v in o["deliv"]), "true" if o["stopped"] else "false") for o in obs[1:]]
-    return ("Definition %s : scase := {| sc_init := s_init %s %s %s; sc_acts := [%s]; sc_observed := [%s] |}.\n"
-            % (name, "true" if fixed else "false", kind, "true" if case.get("sink") == "sync" else "false", "; ".join(acts), ";\n  ".join(ob)))
+    return ("Definition %s : scase := {| sc_init := s_init %s %s %s %s; sc_acts := [%s]; sc_observed := [%s] |}.\n"
+            % (name, "true" if fixed else "false", kind, "true" if case.get("sink") == "sync" else "false", on, "; ".join(acts), ";\n  ".join(ob)))
 
 
 HEADER = "From Coq Require Import List ZArith.\nFrom SZ Require Import Ext.SourceLife.\nImport ListNotations.\n"
@@ -149,13 +159,24 @@ def exhaustive(tier):
                 if seq[0] not in (0, 4):
                     continue
                 cases.append({"src": sp, "sink": sink, "actions": [alphabet[i] for i in seq]})
-    # the consumer stops the source from inside its callback (at the 1st / 2nd element), every shorter word
+    # the consumer stops the source from inside its callback (at the 1st / 2nd element), every shorter word; the
+    # restart may also come as back-to-back stop(); start()
+    alphabet_on = alphabet[:4] + [["multi", ["stop", "start"]]]
     for sp, vals in (({"k": "periodic", "poll": 2}, (1, 2)), ({"k": "iterable", "items": [10, 11, 12, 13]}, (10, 11))):
         for sink in ("ctl", "sync"):
             for v in vals:
                 for via in ("src", "node"):
-                    for seq in itertools.product(range(4), repeat=n - 2):
-                        cases.append({"src": sp, "sink": sink, "stop_on": v, "stop_via": via, "actions": [["start"]] + [alphabet[i] for i in seq]})
+                    for seq in itertools.product(range(5), repeat=n - 2):
+                        cases.append({"src": sp, "sink": sink, "stop_on": v, "stop_via": via, "actions": [["start"]] + [alphabet_on[i] for i in seq]})
+    # back-to-back calls that end with start(): one callback that restarts, with and without a live polling loop
+    alphabet_bb = alphabet[:4] + [["multi", ["stop", "start"]], ["multi", ["start", "stop", "start"]]]
+    m = 4 if tier == "quick" else 5
+    for sp in ({"k": "periodic", "poll": 2}, {"k": "iterable", "items": [10, 11, 12]}):
+        for sink in ("ctl", "sync"):
+            for seq in itertools.product(range(6), repeat=m):
+                if seq[0] not in (0, 4, 5) or not any(i >= 4 for i in seq):
+                    continue
+                cases.append({"src": sp, "sink": sink, "actions": [alphabet_bb[i] for i in seq]})
     return cases
 
 
@@ -187,9 +208,7 @@ def run(prop, tier, seed, replay=None):
                 out.violation(sig, msg, {"case": c})
                 nfind += 1
             break
-    modelled = [(c, o) for (c, o) in cos if not any(a[0] == "multi" for a in c["actions"]) and "stop_on" not in c]
-    oracle_only = len(cos) - len(modelled)
-    cos_all, cos = cos, modelled
+    cos_all = cos          # every history goes through the model correspondence
     mism, errors = correspondence("C18", cos, fixed=True)
     for p, o in errors:
         out.violation("C18/correspondence-error", "coqc failed: %s" % o[-300:], {"file": p}, no_input=True)
@@ -203,9 +222,10 @@ def run(prop, tier, seed, replay=None):
     if not proof["ok"]:
         out.violation("C18/proof/%s" % proof["failing"], "proof obligation no longer checks: %s" % proof["failing"],
                       {"theorem_or_file": proof["failing"], "log": proof["log"][-2000:]}, no_input=True)
-    cov = {"evaluations": len(cos_all), "oracle_only_cases_with_back_to_back_calls_or_stop_inside_callback": oracle_only,
+    cov = {"evaluations": len(cos_all), "oracle_only_cases": 0,
+           "cases_with_back_to_back_calls": sum(1 for (c, o) in cos_all if any(a[0] == "multi" for a in c["actions"])),
            "cases_with_stop_inside_callback": sum(1 for (c, o) in cos_all if "stop_on" in c), "distinct_nontrivial": len(nontriv),
-           "rule": "exhaustive start/stop/ack/advance words of length 5 (quick) or 7 (thorough) over from_periodic and from_iterable with controlled and synchronous sinks, plus random longer histories (stop immediately followed by start is favoured); non-trivial = at least one delivery",
+           "rule": "exhaustive words over start / stop / ack / advance / back-to-back start();stop() of length 5 (quick) or 7 (thorough) over from_periodic and from_iterable with controlled and synchronous sinks; every word of length 3 (5) after a start with a consumer that calls stop() from inside its callback at the 1st or 2nd element (on the source or on the sink node), the restart also as back-to-back stop();start(); every word of length 4 (5) with back-to-back calls that end with start(); plus random longer histories (stop immediately followed by start is favoured, back-to-back calls and reacting consumers mixed in). ALL histories are compared with the Coq model (SMulti, ss_stop_on) inside Coq; non-trivial = at least one delivery",
            "exhaustive": False, "traces_validated_against_impl": len(cos) - len(mism), "disagreements_checked": len(mism),
            "samples": [cos[i][0] for i in (0, len(cos) // 2) if cos]}
     return out.finish(proof, cov)
